@@ -112,7 +112,7 @@ _public_ int m_mod_set_batch_timeout(m_mod_t *mod, uint64_t timeout_ns) {
 
     /* If it was already set, remove old timer */
     if (mod->batch.timer.ns != 0) {
-        deregister_mod_src(mod, M_SRC_TYPE_TMR, &mod->batch.timer, M_SRC_INTERNAL);
+        deregister_mod_src(mod, M_SRC_TYPE_TMR, &mod->batch.timer, M_SRC_INTERNAL, &mod->batch);
     }
     mod->batch.timer.clock_id = CLOCK_MONOTONIC;
     mod->batch.timer.ns = timeout_ns;
